@@ -206,6 +206,16 @@ MUTS = [
     ('is_straight_line threshold 1e-5 -> 1e-6', 'kurbo/src/svg.rs',
      'self.radii.x.abs() <= 1e-5 ||', 'self.radii.x.abs() <= 1e-6 ||',
      {'svg.rs::SvgArc::is_straight_line'}),
+    # folds over a consumed Segments (tr_drain of the tied `next`) and the Shape methods on top
+    ('Segments::bounding_box unions in the other order', 'kurbo/src/bezpath.rs',
+     'bbox = Some(bb.union(seg_bb));', 'bbox = Some(seg_bb.union(bb));',
+     {'bezpath.rs::Segments<I>::bounding_box'}),
+    ('Segments::winding negates each contribution', 'kurbo/src/bezpath.rs',
+     'self.map(|seg| seg.winding(p)).sum()', 'self.map(|seg| -seg.winding(p)).sum()',
+     {'bezpath.rs::Segments<I>::winding'}),
+    ('Segments::area sums arc lengths', 'kurbo/src/bezpath.rs',
+     'self.map(|seg| seg.signed_area()).sum()', 'self.map(|seg| seg.arclen(1e-9)).sum()',
+     {'bezpath.rs::Segments<I>::area'}),
     # a helper without a model counterpart: every user follows
     ('helper Rect::new swaps y0/y1 (all users of the helper follow)', 'kurbo/src/rect.rs',
      'Rect { x0, y0, x1, y1 }\n    }', 'Rect { x0, y0: y1, x1, y1: y0 }\n    }',
